@@ -39,6 +39,9 @@
 #include "ref_split.h"
 #include "ref_swap.h"
 #include "ref_validation.h"
+#ifdef NASA_REFINE_VERIF
+#include "ref_verif.h"
+#endif
 
 REF_FCN REF_STATUS ref_adapt_create(REF_ADAPT *ref_adapt_ptr) {
   REF_ADAPT ref_adapt;
@@ -803,6 +806,9 @@ REF_FCN REF_STATUS ref_adapt_pass(REF_GRID ref_grid, REF_BOOL *all_done) {
 
   *all_done = (all_done0 && all_done1);
 
+#ifdef NASA_REFINE_VERIF
+  ref_verif_sync("adapt_pass", ref_grid);
+#endif
   return REF_SUCCESS;
 }
 
